@@ -114,9 +114,9 @@ type stationRT struct {
 	// composed: the same messages serialised before the library ever parsed
 	// them (see Msg.BuildFull)
 	composed map[string][]byte
-	order  []string
-	status *StatusRec
-	dir    *dirBox // when set, the real DirHandler is the mailbox (h is unused)
+	order    []string
+	status   *StatusRec
+	dir      *dirBox // when set, the real DirHandler is the mailbox (h is unused)
 }
 
 // box is what the chain logic needs from either mailbox kind.
